@@ -12,6 +12,8 @@ an anchor the machinery can no longer recognise.  Nothing here executes pint.
   T2 flip-if        `if c: A else: B`  ->  `if not c: B else: A`      (no elif chains)
   T3 unelse         `if c: ...return/raise/continue/break  else: B`  ->  `if c: ...` followed by B
   T4 reelse         `if c: ...return/raise/continue/break` followed by REST  ->  `if c: ... else: REST`
+  T6 split-and      `if a and b: X` (no else)  ->  `if a: if b: X`
+  T7 de-morgan      `not (a and b)` <-> `not a or not b` (and the dual) in if/while tests
   T5 hoist-args     the arguments of a call used as an expression statement / assigned value / returned value that
                     are themselves calls are NOT hoisted (evaluation order); instead every `return <expr>` whose
                     expression is not a name or constant becomes `ret_tmp = <expr>; return ret_tmp`
@@ -183,6 +185,40 @@ def hoist_returns(tree):
     return count
 
 
+# ------------------------------------------------------------------ T6 / T7
+def split_and(tree):
+    """`if a and b: X` (no else)  ->  `if a: if b: X`   (same evaluation order and short-circuit)"""
+    count = 0
+    for n in ast.walk(tree):
+        if isinstance(n, ast.If) and not n.orelse and isinstance(n.test, ast.BoolOp) and isinstance(n.test.op, ast.And) and not getattr(n, "_made", False):
+            first, rest = n.test.values[0], n.test.values[1:]
+            inner = ast.If(test=rest[0] if len(rest) == 1 else ast.BoolOp(op=ast.And(), values=rest), body=n.body, orelse=[])
+            inner._made = True
+            n.test, n.body = first, [inner]
+            count += 1
+    return count
+
+
+def demorgan(tree):
+    """`not (a and b)` <-> `not a or not b`, `not (a or b)` <-> `not a and not b` in if/while tests; `x not in y` /
+    `x is not y` / `x != y` are left alone (negating them is not always an identity for user types)."""
+    count = 0
+
+    def neg(e):
+        return e.operand if isinstance(e, ast.UnaryOp) and isinstance(e.op, ast.Not) else ast.UnaryOp(op=ast.Not(), operand=e)
+    for n in ast.walk(tree):
+        if isinstance(n, (ast.If, ast.While)):
+            t = n.test
+            if isinstance(t, ast.UnaryOp) and isinstance(t.op, ast.Not) and isinstance(t.operand, ast.BoolOp):
+                b = t.operand
+                n.test = ast.BoolOp(op=ast.Or() if isinstance(b.op, ast.And) else ast.And(), values=[neg(v) for v in b.values])
+                count += 1
+            elif isinstance(t, ast.BoolOp) and all(isinstance(v, ast.UnaryOp) and isinstance(v.op, ast.Not) for v in t.values):
+                n.test = ast.UnaryOp(op=ast.Not(), operand=ast.BoolOp(op=ast.Or() if isinstance(t.op, ast.And) else ast.And(), values=[v.operand for v in t.values]))
+                count += 1
+    return count
+
+
 TRANSFORMS = {
     "T0": ("unparse", lambda t: 1),
     "T1": ("rename-locals", rename_locals),
@@ -190,6 +226,8 @@ TRANSFORMS = {
     "T3": ("unelse", unelse),
     "T4": ("reelse", reelse),
     "T5": ("hoist-returns", hoist_returns),
+    "T6": ("split-and", split_and),
+    "T7": ("de-morgan", demorgan),
 }
 
 
